@@ -180,6 +180,12 @@ pub struct KnownFindings {
     pub findings: Vec<Finding>,
 }
 
+/// the committed known-findings table (read once; never written)
+pub fn known() -> &'static KnownFindings {
+    static K: std::sync::OnceLock<KnownFindings> = std::sync::OnceLock::new();
+    K.get_or_init(KnownFindings::load)
+}
+
 impl KnownFindings {
     pub fn load() -> KnownFindings {
         let p = format!("{}/known_findings.json", VERIF_DIR);
